@@ -206,6 +206,9 @@ func (c *AbstractTokenizer) ReadNextToken() *Token {
 		}
 
 		// Get state for character
+		// Forget the token skipped by the previous iteration
+		token = nil
+
 		state := c.GetCharacterState(nextChar)
 		if state != nil {
 			token = state.NextToken(c.Scanner, c)
